@@ -12,6 +12,7 @@ import Mathlib.Tactic.FieldSimp
 import Mathlib.Tactic.Ring
 import Mathlib.Tactic.Positivity
 import Mathlib.Tactic.Linarith
+import USProofs.Properties.C06
 
 open USModel
 
@@ -280,5 +281,64 @@ theorem stack_wiring (r rho : ℝ) (L k : ℕ) (hk : k < L) :
 
 /-! ### Non-vacuity: the hypotheses are met by a concrete stack. -/
 example : (0 : ℝ) < 1 / 2 ∧ (0 : ℝ) < 3 ∧ 1 ≤ 4 := by norm_num
+
+end USProofs.C07
+
+/-! ### link to the residual scheme of C06: the bookkeeping *is* the stack's coefficients -/
+namespace USProofs.C07
+
+open USModel
+
+/-- a branch whose output does not depend on its input (a fresh, independent contribution `b`) -/
+def constBranch (b : ℝ) : DOp ℝ ℝ := ⟨fun _ => b, fun _ _ => 0⟩
+
+/-- coefficient of the stack's input, and of each branch output, in the output of a sequential
+    residual stack with weights `(wrᵢ, wsᵢ)` -/
+def embCoeff : List (ℝ × ℝ) → ℝ
+  | [] => 1
+  | (_, ws) :: rest => ws * embCoeff rest
+def branchCoeffs : List (ℝ × ℝ) → List ℝ
+  | [] => []
+  | (wr, _) :: rest => (wr * embCoeff rest) :: branchCoeffs rest
+
+/-- **Unrolling.** The output of a sequential residual stack whose branches contribute `bᵢ` is
+    `embCoeff · x + Σ branchCoeffᵢ · bᵢ`. -/
+theorem stack_unroll (layers : List (ℝ × ℝ × ℝ)) (x : ℝ) :
+    (residualStack (layers.map fun l => (l.1, l.2.1, constBranch l.2.2))).fwd x
+      = embCoeff (layers.map fun l => (l.1, l.2.1)) * x
+        + ((branchCoeffs (layers.map fun l => (l.1, l.2.1))).zip (layers.map fun l => l.2.2)).foldr
+            (fun p acc => p.1 * p.2 + acc) 0 := by
+  induction layers generalizing x with
+  | nil => simp [residualStack, DOp.idOp, embCoeff, branchCoeffs]
+  | cons l rest ih =>
+    obtain ⟨wr, ws, b⟩ := l
+    simp only [List.map_cons, residualStack, DOp.comp, embCoeff, branchCoeffs, List.zip_cons_cons,
+      List.foldr_cons]
+    have : (residualApply wr ws (constBranch b)).fwd x = wr * b + ws * x := by
+      simp [residualApply, DOp.comp, residualAdd, onFirst, residualSplit, constBranch]
+    rw [ih, this]
+    ring
+
+/-- with the weights of `tau` (`wr = τ/d`, `ws = 1/d`, `d = √(1+τ²)`) the squared coefficients are
+    exactly the bookkeeping of `contribEmb` / `contribs` on `τ²` -/
+theorem embCoeff_sq (taus : List ℝ) :
+    (embCoeff (taus.map fun t => (t / Real.sqrt (1 + t ^ 2), 1 / Real.sqrt (1 + t ^ 2)))) ^ 2
+      = contribEmb (taus.map fun t => t ^ 2) := by
+  induction taus with
+  | nil => simp [embCoeff, contribEmb_nil]
+  | cons t rest ih =>
+    have hd : (0 : ℝ) < 1 + t ^ 2 := by positivity
+    simp only [List.map_cons, embCoeff, contribEmb_cons, mul_pow, ih, div_pow, one_pow,
+      Real.sq_sqrt hd.le]
+
+theorem branchCoeffs_sq (taus : List ℝ) :
+    (branchCoeffs (taus.map fun t => (t / Real.sqrt (1 + t ^ 2), 1 / Real.sqrt (1 + t ^ 2)))).map (· ^ 2)
+      = contribs (taus.map fun t => t ^ 2) := by
+  induction taus with
+  | nil => simp [branchCoeffs, contribs]
+  | cons t rest ih =>
+    have hd : (0 : ℝ) < 1 + t ^ 2 := by positivity
+    simp only [List.map_cons, branchCoeffs, contribs, ih, mul_pow, embCoeff_sq, div_pow,
+      Real.sq_sqrt hd.le, Nat.cast_one]
 
 end USProofs.C07
